@@ -9,7 +9,7 @@ func init() {
 			if t == "thorough" {
 				return "k<=4 wrapped strategies, n<=5 snapshots (n<=6 for decorators), nestings NoLoss(StopLoss), Inverse(NoLoss), And(Or(x,y),z) with n<=4"
 			}
-			return "k<=3 wrapped strategies, n<=4 snapshots (n<=5 for decorators), nestings with n<=3"
+			return "k<=3 wrapped strategies with k*n<=9, n<=4 snapshots (n<=5 for decorators), nestings with n<=3"
 		},
 		outside:     "longer action words; MACD-RSI's combiner is checked over its real sub-strategies in C06 (its fields are concrete strategy types, so arbitrary words cannot be injected); stop-loss percentage outside [0,1)",
 		assumptions: append([]string{realModeNote, "closings are positive reals; stop-loss percentage in [0,1)", "oracle: vote / decorator models in harness/h/c07_c08.go"}, commonAssumptions...),
@@ -22,7 +22,7 @@ func init() {
 			for kind := 0; kind <= 2; kind++ {
 				for k := 1; k <= maxK; k++ {
 					for n := 0; n <= maxN; n++ {
-						if k*n > 12 && tier != "thorough" || k*n > 16 {
+						if k*n > 9 && tier != "thorough" || k*n > 16 {
 							continue
 						}
 						c := cs("H_C07_Vote", kind, k, n)
